@@ -39,6 +39,8 @@ pub fn gen_min_case(rng: &mut Rng, tier: &str, prop: &str, degenerate: bool) -> 
             tab_desc_pct: 0,
             utf8_id_pct: 15,
             dup_id_pct: 3,
+            mega_1_in: 15000,
+            twin_mega_1_in: 0,
     };
     let records = g.gen(rng);
     let container = gen_container(rng, &records, false, true);
